@@ -73,6 +73,31 @@ def redumpKey (w : World) (p : Path) : KeyLookup :=
         | some r => r
         | none => .notFound
 
+/-! ### the same decision with I/O faults (tryGetRedumpKey after its repair) -/
+
+/-- what opening one candidate key file can give -/
+inductive OpenRes where
+  | absent                  -- no such file: ENOENT, ENOTDIR, ENAMETOOLONG (`keyFileAbsent`)
+  | ioerr                   -- any other error
+  | opened (r : KeyLookup)  -- opened; `r` is what ReadKeyFile makes of it
+deriving Repr, DecidableEq
+
+/-- the decision over the two candidates, adjacent first -/
+def keyDecision (adj red : OpenRes) : KeyLookup :=
+  match adj with
+  | .opened r => r
+  | .ioerr => .failed
+  | .absent =>
+    match red with
+    | .opened r => r
+    | .ioerr => .failed
+    | .absent => .notFound
+
+/-- a fault-free world: a candidate is there or not -/
+def OpenRes.ofStat : Option KeyLookup → OpenRes
+  | none => .absent
+  | some r => .opened r
+
 def fileRd (f : Inode) : Nat → Nat → Bytes := fun off n => f.content.read off n
 
 /-- the wrappers FS.OpenFile puts around a regular file opened for reading -/
